@@ -138,81 +138,70 @@ class Tx:
 
 
 # ------------------------------------------------------------------------------ encoding
-def _emit_inputs(tx, out, layout, base, script_override=None):
-    def mark(label):
-        if layout is not None:
-            layout.append((base + sum(len(p) for p in out), label))
-    mark('input-count')
-    out.append(compact_size(len(tx.inputs)))
+class _Out:
+    """byte accumulator that can record (offset, label) marks for a field layout"""
+    __slots__ = ('parts', 'pos', 'layout')
+
+    def __init__(self, layout=None):
+        self.parts, self.pos, self.layout = [], 0, layout
+
+    def put(self, data: bytes, label=None):
+        if label is not None and self.layout is not None:
+            self.layout.append((self.pos, label))
+        self.parts.append(data)
+        self.pos += len(data)
+
+    def done(self) -> bytes:
+        return b''.join(self.parts)
+
+
+def _emit_inputs(tx, out, script_override=None):
+    out.put(compact_size(len(tx.inputs)), 'input-count')
     for k, txin in enumerate(tx.inputs):
         if len(txin.prev_hash) != 32:
             raise ValueError('previous tx hash must be 32 bytes')
         script = txin.script if script_override is None else script_override(k, txin)
-        mark(f'in[{k}].prev-hash')
-        out.append(txin.prev_hash)
-        mark(f'in[{k}].prev-index')
-        out.append(_le(txin.prev_index, 4))
-        mark(f'in[{k}].script-length')
-        out.append(compact_size(len(script)))
-        mark(f'in[{k}].script')
-        out.append(script)
-        mark(f'in[{k}].sequence')
-        out.append(_le(txin.sequence, 4))
+        out.put(txin.prev_hash, f'in[{k}].prev-hash')
+        out.put(_le(txin.prev_index, 4), f'in[{k}].prev-index')
+        out.put(compact_size(len(script)), f'in[{k}].script-length')
+        out.put(script, f'in[{k}].script')
+        out.put(_le(txin.sequence, 4), f'in[{k}].sequence')
 
 
-def _emit_outputs(tx, out, layout, base):
-    def mark(label):
-        if layout is not None:
-            layout.append((base + sum(len(p) for p in out), label))
-    mark('output-count')
-    out.append(compact_size(len(tx.outputs)))
+def _emit_outputs(tx, out):
+    out.put(compact_size(len(tx.outputs)), 'output-count')
     for k, txout in enumerate(tx.outputs):
-        mark(f'out[{k}].amount')
-        out.append(_le(txout.amount, 8))
-        mark(f'out[{k}].script-length')
-        out.append(compact_size(len(txout.script)))
-        mark(f'out[{k}].script')
-        out.append(txout.script)
+        out.put(_le(txout.amount, 8), f'out[{k}].amount')
+        out.put(compact_size(len(txout.script)), f'out[{k}].script-length')
+        out.put(txout.script, f'out[{k}].script')
 
 
 def encode_legacy(tx: Tx, layout=None) -> bytes:
     """version(4 LE) | #in | {hash32 index4 scriptlen script seq4}* | #out | {amount8 scriptlen script}* | locktime(4)"""
-    parts = []
-    if layout is not None:
-        layout.append((0, 'version'))
-    parts.append(_le(tx.version, 4))
-    _emit_inputs(tx, parts, layout, 0)
-    _emit_outputs(tx, parts, layout, 0)
-    if layout is not None:
-        layout.append((sum(len(p) for p in parts), 'locktime'))
-    parts.append(_le(tx.locktime, 4))
-    return b''.join(parts)
+    out = _Out(layout)
+    out.put(_le(tx.version, 4), 'version')
+    _emit_inputs(tx, out)
+    _emit_outputs(tx, out)
+    out.put(_le(tx.locktime, 4), 'locktime')
+    return out.done()
 
 
 def encode_bip144(tx: Tx, layout=None) -> bytes:
     """version | 00 (marker) | 01 (flag) | inputs | outputs | per input: #items {len item}* | locktime"""
     if tx.witnesses is None or len(tx.witnesses) != len(tx.inputs):
         raise ValueError('BIP144 needs exactly one witness stack per input')
-    parts = []
-    if layout is not None:
-        layout.append((0, 'version'))
-    parts.append(_le(tx.version, 4))
-    if layout is not None:
-        layout.append((4, 'marker-flag'))
-    parts.append(b'\x00\x01')
-    _emit_inputs(tx, parts, layout, 0)
-    _emit_outputs(tx, parts, layout, 0)
+    out = _Out(layout)
+    out.put(_le(tx.version, 4), 'version')
+    out.put(b'\x00\x01', 'marker-flag')
+    _emit_inputs(tx, out)
+    _emit_outputs(tx, out)
     for k, stack in enumerate(tx.witnesses):
-        if layout is not None:
-            layout.append((sum(len(p) for p in parts), f'witness[{k}]'))
-        parts.append(compact_size(len(stack)))
+        out.put(compact_size(len(stack)), f'witness[{k}]')
         for item in stack:
-            parts.append(compact_size(len(item)))
-            parts.append(item)
-    if layout is not None:
-        layout.append((sum(len(p) for p in parts), 'locktime'))
-    parts.append(_le(tx.locktime, 4))
-    return b''.join(parts)
+            out.put(compact_size(len(item)))
+            out.put(item)
+    out.put(_le(tx.locktime, 4), 'locktime')
+    return out.done()
 
 
 def region_of(layout, offset):
@@ -310,12 +299,13 @@ def sighash_all_preimage(tx: Tx, input_index: int, spent_script: bytes) -> bytes
     if not 0 <= input_index < len(tx.inputs):
         raise IndexError('input_index out of range')
     spent_script = bytes(spent_script)
-    parts = [_le(tx.version, 4)]
-    _emit_inputs(tx, parts, None, 0, script_override=lambda k, txin: spent_script if k == input_index else b'')
-    _emit_outputs(tx, parts, None, 0)
-    parts.append(_le(tx.locktime, 4))
-    parts.append(_le(SIGHASH_ALL, 4))
-    return b''.join(parts)
+    out = _Out()
+    out.put(_le(tx.version, 4))
+    _emit_inputs(tx, out, script_override=lambda k, txin: spent_script if k == input_index else b'')
+    _emit_outputs(tx, out)
+    out.put(_le(tx.locktime, 4))
+    out.put(_le(SIGHASH_ALL, 4))
+    return out.done()
 
 
 def sighash_all_digest(tx: Tx, input_index: int, spent_script: bytes) -> bytes:
